@@ -93,6 +93,11 @@ Theorem C05_defaults : forall rnd,
 Proof. exact to_config_defaults. Qed.
 Print Assumptions C05_defaults.
 
+(** "six random lowercase letters": the alphabet the prefix is drawn from (regenerated from util.rs on every run). *)
+Theorem C05_prefix_alphabet_is_lowercase : gen_rnd_alphabet = "abcdefghijklmnopqrstuvwxyz"%string.
+Proof. reflexivity. Qed.
+Print Assumptions C05_prefix_alphabet_is_lowercase.
+
 Theorem C05_dst_defaults_to_src : forall rnd r m,
   In m (c_methods (to_config rnd r)) ->
   exists rm, In rm (r_methods r) /\ m_src m = rm_src rm /\
